@@ -24,12 +24,13 @@ Definition row_scale (n : nat) (A : mat) (k : nat) : T :=
 
 (* for i in k+1..n-1: A[i,k] /= scale; for j in k+1..n-1: A[i,j] += A[i,k] * A[k,j] *)
 Definition elim_step (n k : nat) (scale : T) (A : mat) : mat :=
-  mtab n (fun i j =>
+  map (fun i =>
     if k <? i then
-      if j =? k then ndiv (mget A i k) scale
-      else if k <? j then nadd (mget A i j) (nmul (ndiv (mget A i k) scale) (mget A k j))
-      else mget A i j
-    else mget A i j).
+      let m := ndiv (mget A i k) scale in
+      map (fun j => if j =? k then m
+                    else if k <? j then nadd (mget A i j) (nmul m (mget A k j))
+                    else mget A i j) (seq 0 n)
+    else map (mget A i) (seq 0 n)) (seq 0 n).
 
 (* for k in range(n-1): ...; if scale <= 0: n = k+1; break.  fuel = n-1 = the loop's own bound.
    Returns the (possibly reduced) n and the final matrix. *)
